@@ -154,7 +154,7 @@ class Rom2:
                 raise RomReject("section", f"HMAC table entry {i}")
             p += len(chunk)
         cmds = parse_commands(ctr_crypt(dek, nonce, body, body_off))
-        return {"uid": uid, "flags": flags, "hmac_count": nmac, "blocks": blocks, "commands": cmds}, body_off + 16 * blocks
+        return {"uid": uid, "flags": flags, "hmac_count": nmac, "blocks": blocks, "commands": cmds, "offset": off}, body_off + 16 * blocks
 
     def cert_block(self, cb: bytes):
         if len(cb) < 32:
